@@ -3,7 +3,8 @@
     repaired shape / the characterised defect under the old shape -- whichever the source has now), the refutation that
     remains, non-vacuity examples, Print Assumptions. *)
 From Coq Require Import ZArith List Bool Lia Permutation Sorted.
-From SF Require Import C17.Emul C17.EmulCheck.
+From Coq Require Import String.
+From SF Require Import C17.Emul C17.Emul2 C17.EmulCheck.
 From Gen Require Import C17Facts.
 Import ListNotations.
 Open Scope Z_scope.
@@ -199,6 +200,108 @@ Proof.
     + first [ exact (levenshtein_null c17_lev eq_refl eq_refl) | absurd_branch E ].
 Qed.
 Print Assumptions C17_verdict_null_guards.
+
+(** slice with a start of either sign: exact for every start <> 0 once the first index is re-based; otherwise a
+    negative start before the first element is clamped by LIST_SLICE *)
+Definition C17_verdict_slice_start_statement : Prop :=
+  if slice_rebase_exact c17_slice_rebase && slice_cfg_ok c17_slice
+  then forall (l : list Z) s n, s <> 0 -> 0 <= n -> duck_slice2 c17_slice_rebase c17_slice l s n = spark_slice_gen l s n
+  else duck_slice2 c17_slice_rebase c17_slice [10] (-2) 2 <> spark_slice_gen [10] (-2) 2.
+Theorem C17_verdict_slice_start : C17_verdict_slice_start_statement.
+Proof.
+  unfold C17_verdict_slice_start_statement. destruct (slice_rebase_exact c17_slice_rebase && slice_cfg_ok c17_slice) eqn:E.
+  - apply andb_prop in E as [E1 E2]. exact (slice_exact c17_slice_rebase c17_slice E1 E2).
+  - first [ vm_compute; discriminate | absurd_branch E ].
+Qed.
+
+(** factorial: NULL outside 0..20 with the range guard; a HUGEINT beyond 20 without it *)
+Definition C17_verdict_factorial_statement : Prop :=
+  if fact_guard_exact c17_fact_guard
+  then forall n, duck_factorial2 c17_fact_guard c17_fact n = spark_factorial n
+  else duck_factorial2 c17_fact_guard c17_fact 21 = Some 51090942171709440000 /\ spark_factorial 21 = None.
+Theorem C17_verdict_factorial : C17_verdict_factorial_statement.
+Proof.
+  unfold C17_verdict_factorial_statement. destruct (fact_guard_exact c17_fact_guard) eqn:E.
+  - exact (factorial_exact c17_fact_guard c17_fact E eq_refl).
+  - first [ exact (factorial_unguarded_beyond_20 c17_fact eq_refl) | absurd_branch E ].
+Qed.
+
+(** NULL arrays / strings: array_append, array_union, overlay, concat *)
+Definition C17_verdict_null_inputs_statement : Prop :=
+  (if c17_append_guard
+   then forall l v, duck_array_append c17_append_guard l v = spark_array_append l v
+   else forall v, duck_array_append c17_append_guard None v = Some [v] /\ spark_array_append None v = None) /\
+  (if c17_union_guard
+   then forall dist, (forall l, NoDup (dist l)) -> (forall l x, In x (dist l) <-> In x l) ->
+        forall a b, opt_perm (duck_array_union2 dist c17_union_guard c17_union a b) (spark_array_union2 a b)
+   else duck_array_union2 dist_nodup c17_union_guard c17_union None (Some [1]) = Some [1] /\ spark_array_union2 None (Some [1]) = None) /\
+  (match c17_overlay_glue with
+   | GluePipes => forall s r pos len, 1 <= pos -> 0 <= len ->
+                  duck_overlay2 c17_overlay_glue c17_overlay s r pos len = spark_overlay2 s r pos len
+   | GlueConcat => duck_overlay2 c17_overlay_glue c17_overlay None None 2 3 = Some [] /\ spark_overlay2 None None 2 3 = None
+   end) /\
+  (match c17_concat_glue with
+   | GluePipes => forall parts, duck_glue c17_concat_glue parts = spark_concat parts
+   | GlueConcat => duck_glue c17_concat_glue [Some [104]; None] = Some [104] /\ spark_concat [Some [104]; None] = None
+   end).
+Theorem C17_verdict_null_inputs : C17_verdict_null_inputs_statement.
+Proof.
+  unfold C17_verdict_null_inputs_statement. split; [|split; [|split]].
+  - destruct c17_append_guard eqn:E.
+    + exact array_append_exact.
+    + exact array_append_unguarded_null.
+  - destruct c17_union_guard eqn:E.
+    + exact (fun dist H1 H2 => array_union_exact dist H1 H2 c17_union eq_refl).
+    + first [ split; vm_compute; reflexivity | absurd_branch E ].
+  - destruct c17_overlay_glue eqn:E.
+    + first [ split; vm_compute; reflexivity | discriminate E ].
+    + exact (overlay_exact c17_overlay eq_refl).
+  - destruct c17_concat_glue eqn:E.
+    + exact concat_function_skips_null.
+    + exact concat_exact.
+Qed.
+Print Assumptions C17_verdict_null_inputs.
+
+(** left / right: '' for a negative length once the length is floored at 0 *)
+Definition C17_verdict_left_right_statement : Prop :=
+  if floor_exact c17_left_floor && floor_exact c17_right_floor
+  then forall (s : list Z) n, duck_left c17_left_floor s n = spark_left s n /\ duck_right c17_right_floor s n = spark_right s n
+  else (forall (s : list Z) n, 0 <= n -> duck_left None s n = spark_left s n /\ duck_right None s n = spark_right s n) /\
+       duck_left c17_left_floor [1; 2; 3] (-1) <> spark_left [1; 2; 3] (-1).
+Theorem C17_verdict_left_right : C17_verdict_left_right_statement.
+Proof.
+  unfold C17_verdict_left_right_statement. destruct (floor_exact c17_left_floor && floor_exact c17_right_floor) eqn:E.
+  - apply andb_prop in E as [E1 E2]. intros s n. split.
+    + exact (proj1 (left_right_exact c17_left_floor E1 s n)).
+    + exact (proj2 (left_right_exact c17_right_floor E2 s n)).
+  - first [ split; [exact (fun s n H => left_right_nonnegative s n H) | vm_compute; discriminate] | absurd_branch E ].
+Qed.
+
+(** substr: position 0 is position 1 once it is re-mapped; without the re-mapping only positions >= 1 are right *)
+Definition C17_verdict_substr_statement : Prop :=
+  if remap_exact c17_substr_remap
+  then forall (s : list Z) p n, 0 <= p -> 0 <= n -> duck_substr c17_substr_remap s p n = spark_substr s p n
+  else (forall (s : list Z) p n, 1 <= p -> 0 <= n -> duck_substr None s p n = spark_substr s p n) /\
+       duck_substr c17_substr_remap [104; 101; 108] 0 2 <> spark_substr [104; 101; 108] 0 2.
+Theorem C17_verdict_substr : C17_verdict_substr_statement.
+Proof.
+  unfold C17_verdict_substr_statement. destruct (remap_exact c17_substr_remap) eqn:E.
+  - exact (substr_exact c17_substr_remap E).
+  - first [ split; [exact (fun s p n => substr_positive s p n) | vm_compute; discriminate] | absurd_branch E ].
+Qed.
+
+(** trunc / date_trunc: every unit spelling Spark accepts reaches DuckDB in a spelling it reads as the same unit *)
+Definition C17_verdict_trunc_units_statement : Prop :=
+  if units_table_ok c17_trunc_units
+  then forall s, In s spark_spellings -> duck_unit (lookup c17_trunc_units s) = spark_unit s
+  else duck_unit (lookup c17_trunc_units "yyyy") = None /\ spark_unit "yyyy" = Some UYear.
+Theorem C17_verdict_trunc_units : C17_verdict_trunc_units_statement.
+Proof.
+  unfold C17_verdict_trunc_units_statement. destruct (units_table_ok c17_trunc_units) eqn:E.
+  - exact (trunc_units_exact c17_trunc_units E).
+  - first [ split; vm_compute; reflexivity | absurd_branch E ].
+Qed.
+Print Assumptions C17_verdict_trunc_units.
 
 (** which branch each verdict took on this run (read by the check into the evidence) *)
 Definition C17_exact_flags : list bool :=
